@@ -144,6 +144,47 @@ package asm
 //@   loop 3 invariant all(k, string, all(j, int, !visited(3, k) ==> len(a.danglingU16[k]) == old(len(a.danglingU16[k])) && a.danglingU16[k][j] == old(a.danglingU16[k][j])))
 //@   loop 3 modifies a.danglingU16
 
+// ---- Finalize (C06) ----
+// WF part needed here: a target buffer exists; every recorded operand address lies inside the emitted bytes;
+// recorded S8 operand addresses are pairwise distinct (each is the last byte of its own branch instruction).
+
+//@ func (*Emitter).Finalize
+//@   property C06
+//@   requires !isnil(a.code) && len(a.code) <= 0x1000000
+//@   requires all(l, string, all(i, int, has(a.danglingS8, l) && 0 <= i && i < len(a.danglingS8[l]) ==> a.danglingS8[l][i] >= a.base && a.danglingS8[l][i]-a.base < uint32(len(a.code))))
+//@   requires all(l, string, all(i, int, has(a.danglingU16, l) && 0 <= i && i < len(a.danglingU16[l]) ==> a.danglingU16[l][i] >= a.base && a.danglingU16[l][i]-a.base < uint32(len(a.code)) && a.danglingU16[l][i]-a.base+1 < uint32(len(a.code)) && a.danglingU16[l][i]-a.base+1 > 0))
+//@   requires all(l, string, all(i, int, all(m, string, all(j, int, has(a.danglingS8, l) && has(a.danglingS8, m) && 0 <= i && i < len(a.danglingS8[l]) && 0 <= j && j < len(a.danglingS8[m]) && (l != m || i != j) ==> a.danglingS8[l][i] != a.danglingS8[m][j]))))
+//@   requires all(l, string, all(i, int, all(m, string, all(j, int, has(a.danglingU16, l) && has(a.danglingU16, m) && 0 <= i && i < len(a.danglingU16[l]) && 0 <= j && j < len(a.danglingU16[m]) && (l != m || i != j) ==> a.danglingU16[l][i] != a.danglingU16[m][j] && a.danglingU16[l][i] != a.danglingU16[m][j]+1 && a.danglingU16[l][i]+1 != a.danglingU16[m][j]))))
+//@   requires all(l, string, all(i, int, all(m, string, all(j, int, has(a.danglingS8, l) && has(a.danglingU16, m) && 0 <= i && i < len(a.danglingS8[l]) && 0 <= j && j < len(a.danglingU16[m]) ==> a.danglingS8[l][i] != a.danglingU16[m][j] && a.danglingS8[l][i] != a.danglingU16[m][j]+1))))
+//@   ensures isnil(err) ==> all(l, string, old(has(a.danglingS8, l)) ==> has(a.labels, l)) && all(l, string, old(has(a.danglingU16, l)) ==> has(a.labels, l))
+//@   ensures isnil(err) ==> all(l, string, all(i, int, old(has(a.danglingS8, l)) && 0 <= i && i < old(len(a.danglingS8[l])) ==> int(a.labels[l])-int(old(a.danglingS8[l][i])+1) <= 127 && int(a.labels[l])-int(old(a.danglingS8[l][i])+1) >= -128))
+//@   ensures isnil(err) ==> all(l, string, all(i, int, old(has(a.danglingS8, l)) && 0 <= i && i < old(len(a.danglingS8[l])) ==> a.code[old(a.danglingS8[l][i])-a.base] == uint8(a.labels[l]-(old(a.danglingS8[l][i])+1))))
+//@   ensures isnil(err) ==> all(l, string, all(i, int, old(has(a.danglingU16, l)) && 0 <= i && i < old(len(a.danglingU16[l])) ==> a.code[old(a.danglingU16[l][i])-a.base] == uint8(a.labels[l]) && a.code[old(a.danglingU16[l][i])-a.base+1] == uint8(a.labels[l]>>8)))
+//@   assigns a.code[:], a.danglingS8, a.danglingU16
+//@   loop 1 invariant all(l, string, visited(1, l) ==> old(has(a.danglingS8, l))) && all(l, string, has(a.danglingS8, l) == (old(has(a.danglingS8, l)) && !visited(1, l)))
+//@   loop 1 invariant all(l, string, all(j, int, len(a.danglingS8[l]) == old(len(a.danglingS8[l])) && a.danglingS8[l][j] == old(a.danglingS8[l][j])))
+//@   loop 1 invariant all(l, string, visited(1, l) ==> has(a.labels, l))
+//@   loop 1 invariant all(l, string, all(i, int, visited(1, l) && 0 <= i && i < old(len(a.danglingS8[l])) ==> int(a.labels[l])-int(old(a.danglingS8[l][i])+1) <= 127 && int(a.labels[l])-int(old(a.danglingS8[l][i])+1) >= -128))
+//@   loop 1 invariant all(l, string, all(i, int, visited(1, l) && 0 <= i && i < old(len(a.danglingS8[l])) ==> a.code[old(a.danglingS8[l][i])-a.base] == uint8(a.labels[l]-(old(a.danglingS8[l][i])+1))))
+//@   loop 1 modifies a.code[:], a.danglingS8
+//@   loop 2 invariant all(j, int, 0 <= j && j < len(refs) ==> refs[j] == old(a.danglingS8[label][j])) && len(refs) == old(len(a.danglingS8[label])) && has(a.labels, label) && addr == a.labels[label] && old(has(a.danglingS8, label))
+//@   loop 2 invariant all(l, string, all(i, int, visited(1, l) && l != label && 0 <= i && i < old(len(a.danglingS8[l])) ==> int(a.labels[l])-int(old(a.danglingS8[l][i])+1) <= 127 && int(a.labels[l])-int(old(a.danglingS8[l][i])+1) >= -128))
+//@   loop 2 invariant all(l, string, all(i, int, visited(1, l) && l != label && 0 <= i && i < old(len(a.danglingS8[l])) ==> a.code[old(a.danglingS8[l][i])-a.base] == uint8(a.labels[l]-(old(a.danglingS8[l][i])+1))))
+//@   loop 2 invariant all(i, int, 0 <= i && i <= rangeindex ==> int(a.labels[label])-int(old(a.danglingS8[label][i])+1) <= 127 && int(a.labels[label])-int(old(a.danglingS8[label][i])+1) >= -128)
+//@   loop 2 invariant all(i, int, 0 <= i && i <= rangeindex ==> a.code[old(a.danglingS8[label][i])-a.base] == uint8(a.labels[label]-(old(a.danglingS8[label][i])+1)))
+//@   loop 2 modifies a.code[:]
+//@   loop 3 invariant all(l, string, all(i, int, old(has(a.danglingS8, l)) && 0 <= i && i < old(len(a.danglingS8[l])) ==> int(a.labels[l])-int(old(a.danglingS8[l][i])+1) <= 127 && int(a.labels[l])-int(old(a.danglingS8[l][i])+1) >= -128)) && all(l, string, all(i, int, old(has(a.danglingS8, l)) && 0 <= i && i < old(len(a.danglingS8[l])) ==> a.code[old(a.danglingS8[l][i])-a.base] == uint8(a.labels[l]-(old(a.danglingS8[l][i])+1)))) && all(l, string, old(has(a.danglingS8, l)) ==> has(a.labels, l))
+//@   loop 3 invariant all(l, string, visited(3, l) ==> old(has(a.danglingU16, l))) && all(l, string, has(a.danglingU16, l) == (old(has(a.danglingU16, l)) && !visited(3, l)))
+//@   loop 3 invariant all(l, string, all(j, int, len(a.danglingU16[l]) == old(len(a.danglingU16[l])) && a.danglingU16[l][j] == old(a.danglingU16[l][j])))
+//@   loop 3 invariant all(l, string, visited(3, l) ==> has(a.labels, l))
+//@   loop 3 invariant all(l, string, all(i, int, visited(3, l) && 0 <= i && i < old(len(a.danglingU16[l])) ==> a.code[old(a.danglingU16[l][i])-a.base] == uint8(a.labels[l]) && a.code[old(a.danglingU16[l][i])-a.base+1] == uint8(a.labels[l]>>8)))
+//@   loop 3 modifies a.code[:], a.danglingU16
+//@   loop 4 invariant all(l, string, all(i, int, old(has(a.danglingS8, l)) && 0 <= i && i < old(len(a.danglingS8[l])) ==> int(a.labels[l])-int(old(a.danglingS8[l][i])+1) <= 127 && int(a.labels[l])-int(old(a.danglingS8[l][i])+1) >= -128)) && all(l, string, all(i, int, old(has(a.danglingS8, l)) && 0 <= i && i < old(len(a.danglingS8[l])) ==> a.code[old(a.danglingS8[l][i])-a.base] == uint8(a.labels[l]-(old(a.danglingS8[l][i])+1)))) && all(l, string, old(has(a.danglingS8, l)) ==> has(a.labels, l))
+//@   loop 4 invariant all(j, int, 0 <= j && j < len(refs) ==> refs[j] == old(a.danglingU16[label][j])) && len(refs) == old(len(a.danglingU16[label])) && has(a.labels, label) && addr == a.labels[label] && old(has(a.danglingU16, label))
+//@   loop 4 invariant all(l, string, all(i, int, visited(3, l) && l != label && 0 <= i && i < old(len(a.danglingU16[l])) ==> a.code[old(a.danglingU16[l][i])-a.base] == uint8(a.labels[l]) && a.code[old(a.danglingU16[l][i])-a.base+1] == uint8(a.labels[l]>>8)))
+//@   loop 4 invariant all(i, int, 0 <= i && i <= rangeindex ==> a.code[old(a.danglingU16[label][i])-a.base] == uint8(a.labels[label]) && a.code[old(a.danglingU16[label][i])-a.base+1] == uint8(a.labels[label]>>8))
+//@   loop 4 modifies a.code[:]
+
 // ---- instruction methods (generated by /verif/tools/gen_asm_contracts.py from the method names) ----
 // classified: 90, uncovered by the naming grammar: none
 
